@@ -282,52 +282,75 @@ def _prod_atom(I, r):
 # Debye: integrands against the textbook, lemma-checked
 
 def debye(run, repo, I, store):
+    """The integrals are found in the values of the public getters, not by the names of the private helpers that
+    build them: U/RT must hold one integral (the Debye function F), Cv/R one (K), S/R two (F and G); each must run
+    from 0 to x = theta_D/T and its integrand must be the textbook one of its role."""
     D = I.D
     obj, v, meta = store['DebyeVib']
     T = D.sym('T')
-    x = D.sym('xD')
     ci = obj.ci
-    ex = D.exp(x)
-    forms = {
-        '_F_integrand': (x * x * x / (ex - 1), 'x^3/(e^x-1) (Debye function integrand)'),
-        '_K_integrand': (x * x * x * x * ex / ((ex - 1) * (ex - 1)), 'x^4 e^x/(e^x-1)^2'),
-        '_G_integrand': (x * x * D.ln(1 - D.exp(-x)), 'x^2 ln(1-e^-x)'),
-    }
-    ok_int = True
-    for name, (want, txt) in forms.items():
-        owner, fn = repo.find_method(ci, name)
-        got = I.call_method(obj, name, [], {'x': x})
-        run.fn(owner.qual + '.' + name)
-        good = same(got, want)
-        ok_int = ok_int and good
-        extra = ''
-        if not good and isinstance(got, Rat):
-            extra = ' (ratio got/expected = %s)' % show(got / want)
-        run.check(good, 'REF.debye integrand', 'DebyeVib.' + name, 'textbook',
-                  'integrand is %s, expected %s%s' % (show(got), txt, extra), owner.module, fn,
-                  sample={'class': 'DebyeVib', 'integrand': name, 'textbook': txt})
-    # prefactor: 3/x^3 * integral_0^x
     theta = D.sym('self.debye_temperature')
     xd = theta / T
-    for q, comb in (('CvoR', lambda F, K, G: 3 * K), ('SoR', lambda F, K, G: 3 * (F - G))):
-        pass
-    ints = {}
-    for name in forms:
-        owner, fn = repo.find_method(ci, name)
-        r = I.call_method(obj, '_get_intermediate_fn', [], {'T': T, 'fn': FuncRef(owner.module, fn, obj, owner)})
-        atom = [a for a in r.atoms() if a.startswith('INT<%s' % name)]
-        ok = len(atom) == 1 and same(r, 3 * Rat.atom(atom[0]) / (xd * xd * xd)) and \
-            same(D.arg[atom[0]], xd) if atom else False
-        o2, f2 = repo.find_method(ci, '_get_intermediate_fn')
-        run.check(ok, 'REF.debye prefactor', 'DebyeVib._get_intermediate_fn', 'fn:' + name,
-                  'intermediate function is not 3/x^3 * integral_0^x f with x = theta_D/T (got %s)' % show(r),
-                  o2.module, f2)
-        if atom:
-            ints[name] = Rat.atom(atom[0])
-    run.fn(ci.qual + '._get_intermediate_fn')
+    exd = D.exp(xd)
+    forms = {
+        'F': (xd * xd * xd / (exd - 1), 'x^3/(e^x-1) (Debye function integrand)'),
+        'K': (xd * xd * xd * xd * exd / ((exd - 1) * (exd - 1)), 'x^4 e^x/(e^x-1)^2'),
+        'G': (xd * xd * D.ln(1 - D.exp(-xd)), 'x^2 ln(1-e^-x)'),
+    }
+    uses = (('UoRT', ['F']), ('CvoR', ['K']), ('SoR', ['F', 'G']))
+    ints = {}           # role -> integral atom
+    judged = {}         # integral atom -> role
+    ok_int = True
+    for q, roles in uses:
+        owner, fn = meta[q]
+        atoms = sorted(a for a in v[q].atoms() if a.startswith('INT<'))
+        if len(atoms) != len(roles):
+            run.fail('REF.debye integrals', 'DebyeVib.get_' + q, 'textbook',
+                     '%s/R(T) holds %d integral(s), the Debye model has %d there: %s'
+                     % (q, len(atoms), len(roles), show(v[q])), owner.module, fn)
+            return
+        # the integrand (evaluated at the upper limit) decides the role; what is left over takes the role left over
+        pending = list(roles)
+        unmatched = []
+        for a in atoms:
+            hit = [r for r in pending if same(D.integrand[a], forms[r][0])]
+            if hit:
+                pending.remove(hit[0])
+                judged.setdefault(a, hit[0])
+                ints.setdefault(hit[0], a)
+            else:
+                unmatched.append(a)
+        for a, r in zip(unmatched, pending):
+            if a in judged:
+                continue
+            judged[a] = r
+            ints.setdefault(r, a)
+        for a in atoms:
+            r = judged[a]
+            fref, lo, hi = I.integrals[a]
+            iowner = fref.owner if fref.owner is not None else owner
+            lim_ok = isinstance(lo, Rat) and lo.iszero() and same(D.arg[a], xd)
+            run.check(lim_ok, 'REF.debye limits', 'DebyeVib %s-integral' % r, 'textbook',
+                      'the integral runs to %s, expected from 0 to theta_D/T' % show(D.arg[a]), owner.module, fn)
+            if ('integrand', a) in judged:
+                continue
+            judged[('integrand', a)] = True
+            want, txt = forms[r]
+            got = D.integrand[a]
+            good = same(got, want)
+            ok_int = ok_int and good
+            extra = ''
+            if not good and isinstance(got, Rat):
+                extra = ' (ratio got/expected = %s)' % show(got / want)
+            run.fn('%s.%s' % (iowner.qual if hasattr(iowner, 'qual') else ci.qual, fref.fn.name))
+            run.check(good, 'REF.debye integrand', 'DebyeVib %s-integrand' % r, 'textbook',
+                      'the integrand of the %s-integral (%s, reached from get_%s) is %s at x, expected %s%s'
+                      % (r, fref.fn.name, q, show(got), txt, extra), fref.module, fref.fn,
+                      sample={'class': 'DebyeVib', 'integrand': fref.fn.name, 'role': r, 'textbook': txt})
     if len(ints) != 3:
         return
-    F, K, G = (3 * ints[k] / (xd * xd * xd) for k in ('_F_integrand', '_K_integrand', '_G_integrand'))
+    ints = {k: Rat.atom(a) for k, a in ints.items()}
+    F, K, G = (3 * ints[k] / (xd * xd * xd) for k in ('F', 'K', 'G'))
     kb_eV = D.sym('kb') * D.sym('U<eV>')
     u = D.sym('self.interaction_energy')
     owner, fn = meta['UoRT']
@@ -347,7 +370,11 @@ def debye(run, repo, I, store):
     # thermodynamic consistency of the textbook combination itself (cross-validates the oracle):
     # with the textbook integrands, I_K = 4 I_F - x^4/(e^x-1) and I_G = x^3/3 ln(1-e^-x) - I_F/3
     # (integration by parts; both sides vanish at x -> 0, their x-derivatives are compared here)
-    fF, fK, fG = (forms[k][0] for k in ('_F_integrand', '_K_integrand', '_G_integrand'))
+    x = D.sym('xD')
+    ex = D.exp(x)
+    fF = x * x * x / (ex - 1)
+    fK = x * x * x * x * ex / ((ex - 1) * (ex - 1))
+    fG = x * x * D.ln(1 - D.exp(-x))
     lem1 = fK - (4 * fF - D.d(x * x * x * x / (ex - 1), 'xD'))
     lem2 = fG - (D.d(x * x * x / 3 * D.ln(1 - D.exp(-x)), 'xD') - fF / 3)
     if not (lem1.iszero() and lem2.iszero()):
@@ -355,7 +382,6 @@ def debye(run, repo, I, store):
     if ok_int:
         # DERIV under the lemmas: substitute I_K, I_G in terms of I_F and require identities in I_F
         IF = D.sym('I_F')
-        exd = D.exp(xd)
         IK = 4 * IF - xd * xd * xd * xd / (exd - 1)
         IG = xd * xd * xd / 3 * D.ln(1 - D.exp(-xd)) - IF / 3
         D.kind['I_F'] = 'int'
@@ -428,7 +454,7 @@ def aggregation(run, repo):
         run.fn(owner.qual + '.' + mname)
         for references in (True, False):
             for misc in (True, False):
-                I = Interp(repo, max_depth=10)
+                I = Interp(repo)
                 D = I.D
                 T, P = D.sym('T'), D.sym('P')
                 sp, modes = build(I, references, misc)
@@ -462,7 +488,7 @@ def aggregation(run, repo):
                 n += 2
                 if references:
                     off = I.call_method(sp, mname, [], dict(kw, use_references=False))
-                    I2 = Interp(repo, max_depth=10)
+                    I2 = Interp(repo)
                     sp2, _ = build(I2, False, misc)
                     none = I2.call_method(sp2, mname, [], {'T': I2.D.sym('T'), 'P': I2.D.sym('P')})
                     run.check(show(off, 2000) == show(none, 2000), 'AGG.refs-off', 'StatMech.' + mname, key,
@@ -470,7 +496,7 @@ def aggregation(run, repo):
                               'references', owner.module, fn)
                     n += 1
         # per-species keyword block is routed to this species only
-        I = Interp(repo, max_depth=10)
+        I = Interp(repo)
         D = I.D
         T, P, P2 = D.sym('T'), D.sym('P'), D.sym('P2')
         sp, modes = build(I, False, False)
@@ -484,7 +510,7 @@ def aggregation(run, repo):
         n += 1
     # species-level twins incl. entropy-of-elements bookkeeping
     for sel in (None, True):
-        I = Interp(repo, max_depth=10)
+        I = Interp(repo)
         D = I.D
         T, P = D.sym('T'), D.sym('P')
         sp, modes = build(I, True, True)
@@ -507,7 +533,7 @@ def aggregation(run, repo):
     # the same twins on the values with units, references and misc models attached, under every option the
     # getters share (G = H - T*S, F = U - T*S in J/mol and eV; an option consumed by one of them shows)
     for opts in ({}, {'use_references': False}, {'S_elements': True}, {'use_references': False, 'S_elements': True}):
-        I = Interp(repo, max_depth=10)
+        I = Interp(repo)
         D = I.D
         T, P = D.sym('T'), D.sym('P')
         sp, modes = build(I, True, True)
@@ -528,7 +554,7 @@ def aggregation(run, repo):
                           % (q, e, units, show(sub(I, vals[q], want))), owner.module, fn)
                 n += 1
     # get_EoRT: electronic energy, plus ZPE/RT iff include_ZPE
-    I = Interp(repo, max_depth=10)
+    I = Interp(repo)
     D = I.D
     T = D.sym('T')
     sp, modes = build(I, False, False)
@@ -556,7 +582,7 @@ def cached_fields(run, repo):
         ci = repo.cls(SM + '.vib.' + cname)
         for sub_given in (False, True):
             I = Interp(repo, order=RankOrder({'w_real': 5, 'w_imag': -5, 'w_real2': 7, 'w_sub': 3, 'w3': 9},
-                                             const_ranks=True), max_depth=10)
+                                             const_ranks=True))
             D = I.D
             T = D.sym('T')
             wr, wi, wr2, ws, w3 = (D.sym(k) for k in ('w_real', 'w_imag', 'w_real2', 'w_sub', 'w3'))
@@ -728,6 +754,18 @@ TR = 'pmutt/statmech/trans.py'
 SMI = 'pmutt/statmech/__init__.py'
 EL = 'pmutt/statmech/elec.py'
 MUTANTS = [
+    {'name': 'Debye K integrand loses e^x', 'expect': ('REF.debye integrand', 'K-integrand'),
+     'edits': [(V, 'return (x**4) * np.exp(x) / (np.exp(x) - 1.)**2', 'return (x**4) / (np.exp(x) - 1.)**2')]},
+    {'name': 'Debye integral runs to T/theta', 'expect': ('REF.debye limits', 'DebyeVib'),
+     'edits': [(V, 'integral = quad(func=fn, a=0., b=vib_dimless)[0]',
+                'integral = quad(func=fn, a=0., b=1. / vib_dimless)[0]')]},
+    {'name': 'Debye prefactor 3/x^2', 'expect': ('REF.debye', 'DebyeVib.get_'),
+     'edits': [(V, 'return 3. * integral / vib_dimless**3', 'return 3. * integral / vib_dimless**2')]},
+    {'name': 'Debye S uses K in place of F', 'expect': ('REF.debye', 'DebyeVib'),
+     'edits': [(V, '''        F = self._get_intermediate_fn(T=T, fn=self._F_integrand)
+        G = self._get_intermediate_fn(T=T, fn=self._G_integrand)''',
+                '''        F = self._get_intermediate_fn(T=T, fn=self._K_integrand)
+        G = self._get_intermediate_fn(T=T, fn=self._G_integrand)''')]},
     {'name': 'nonlinear rotor S uses T^2', 'expect': ('', 'RigidRotor[nonlinear]'),
      'edits': [(R_, '(T**3 / np.prod(self.rot_temperatures))**0.5) + 1.5', '(T**2 / np.prod(self.rot_temperatures))**0.5) + 1.5')]},
     {'name': 'Einstein S loses factor on ln term', 'expect': ('', 'EinsteinVib.get_SoR'),
